@@ -13,7 +13,7 @@
    MakeNumber can hold); `fine` = rep_ok (what the builders guarantee) + bounded + plain (no
    function whose domain is 1..n inside: TLA+ identifies it with a tuple, the runtime does
    not — known finding `tuple-function-identity`, see eq_tuple_function_refuted). *)
-From PGV Require Import Base.Value Base.ValueFacts Base.Ops C05.Model C03.Impl C03.Proofs.
+From PGV Require Import Base.Value Base.ValueFacts Base.Ops C05.Model C05.Proofs C03.Impl C03.Proofs.
 From Coq Require Import Lia.
 Open Scope Z_scope.
 
@@ -181,6 +181,89 @@ Theorem colongt_correct : forall k v, good k -> good v ->
 Proof. exact colongt_lemma. Qed.
 Print Assumptions colongt_correct.
 
+Theorem subset_correct : forall a, fine a -> allowed False (spec_subset (norm a)) (ModulePrefixSubsetSymbol a).
+Proof. exact subset_lemma. Qed.
+Print Assumptions subset_correct.
+Theorem domain_correct : forall f, fine f -> allowed (is_tuprep f) (spec_domain (norm f)) (ModuleDomainSymbol f).
+Proof. exact domain_lemma. Qed.
+Print Assumptions domain_correct.
+Theorem apply_correct : forall f x, fine f -> fine x -> allowed False (spec_apply (norm f) (norm x)) (ApplyFunction f x).
+Proof. exact apply_lemma. Qed.
+Print Assumptions apply_correct.
+Theorem cross_correct : forall vs, fine_sets vs -> allowed False (spec_cross (map norm vs)) (CrossProduct vs).
+Proof. exact cross_lemma. Qed.
+Print Assumptions cross_correct.
+
+(* ---- binders.  The Go closure p / b is any function that, on members of the sets, does not panic
+   and computes the predicate q / the body g of the denoted values (pred_refines, body_refines). ---- *)
+Theorem forall_correct : forall vs p q, fine_sets vs ->
+  (forall sets, vs = map VSet sets -> pred_refines p q sets) ->
+  allowed False (spec_forall (map norm vs) q) (QuantifiedUniversal vs p).
+Proof. exact forall_lemma. Qed.
+Print Assumptions forall_correct.
+Theorem exists_correct : forall vs p q, fine_sets vs ->
+  (forall sets, vs = map VSet sets -> pred_refines p q sets) ->
+  allowed False (spec_exists (map norm vs) q) (QuantifiedExistential vs p).
+Proof. exact exists_lemma. Qed.
+Print Assumptions exists_correct.
+Theorem refine_correct : forall a p q, fine a ->
+  (forall s, a = VSet s -> forall x, In x s -> p [x] = Ok (q (canon x))) ->
+  allowed False (spec_refine (norm a) q) (SetRefinement a p).
+Proof. exact refine_lemma. Qed.
+Print Assumptions refine_correct.
+Theorem compr_correct : forall vs b g, fine_sets vs ->
+  (forall sets, vs = map VSet sets -> body_refines b g sets) ->
+  allowed False (spec_compr (map norm vs) g) (SetComprehension vs b).
+Proof. exact compr_lemma. Qed.
+Print Assumptions compr_correct.
+(* CHOOSE: some member satisfying the predicate (TLA+ leaves the choice open), a TLA+ type error
+   exactly when no member satisfies it *)
+Theorem choose_correct : forall a p q, fine a ->
+  (forall s, a = VSet s -> forall x, In x s -> p [x] = Ok (q (canon x))) ->
+  match Choose a p with
+  | Ok r => exists s, a = VSet s /\ In r s /\ choose_ok (norm a) q (norm r) /\ good r
+  | TypeErr => choose_err (norm a) q
+  | _ => False
+  end.
+Proof. exact choose_lemma. Qed.
+Print Assumptions choose_correct.
+Theorem tostring_correct : forall a, exists s, ModuleToString a = Ok (VStr s).
+Proof. exact tostring_lemma. Qed.
+Print Assumptions tostring_correct.
+Theorem selectelement_correct : forall a idx, fine a ->
+  match SelectElement a idx with
+  | Ok r => exists s, a = VSet s /\ In r s /\ (idx < List.length s)%nat /\ good r
+  | TypeErr => forall s, a = VSet s -> (List.length s <= idx)%nat
+  | _ => False
+  end.
+Proof. exact selectelement_lemma. Qed.
+Print Assumptions selectelement_correct.
+
+(* ---- function-valued operators ---- *)
+Theorem atat_correct : forall f g, fine f -> fine g ->
+  allowed (is_tuprep f \/ is_tuprep g) (spec_atat (norm f) (norm g)) (ModuleDoubleAtSignSymbol f g).
+Proof. exact atat_lemma. Qed.
+Print Assumptions atat_correct.
+Theorem makerecord_correct : forall pairs,
+  (forall k v, In (k, v) pairs -> fine k /\ fine v) -> NoDup (map canon (map fst pairs)) ->
+  allowed False (SOk (mk_graph (map ckv pairs))) (MakeRecordV pairs).
+Proof. exact makerecord_lemma. Qed.
+Print Assumptions makerecord_correct.
+Theorem mkfun_correct : forall vs b g, fine_sets vs ->
+  (forall sets, vs = map VSet sets -> body_refines b g sets) ->
+  allowed False (spec_mkfun (map norm vs) g) (MakeFunction vs b).
+Proof. exact mkfun_lemma. Qed.
+Print Assumptions mkfun_correct.
+
+(* ---- stated, not proved (the correspondence check and the reference oracle are the detection
+   mechanism for these): record sets, function sets.  EXCEPT (FunctionSubstitution) has no Coq
+   spec yet; Seq and SelectSeq are not modelled (known findings). ---- *)
+Definition recordset_full_statement : Prop :=
+  forall pairs, (forall k v, In (k, v) pairs -> fine k /\ fine v) -> NoDup (map canon (map fst pairs)) ->
+  allowed False (spec_recordset (map (fun p => norm (fst p)) pairs) (map (fun p => norm (snd p)) pairs)) (MakeRecordSet pairs).
+Definition funset_full_statement : Prop :=
+  forall a b, fine a -> fine b -> allowed False (spec_funset (norm a) (norm b)) (MakeFunctionSet a b).
+
 (* ---- non-vacuity: nested, ill-typed and boundary arguments ---- *)
 Definition ex_s1 : value := VSet [VTup [VNum 1; VStr [97%N]]; VSet [VNum 2; VNum 3]; VNum (-7)].
 Definition ex_s2 : value := VSet [VNum (-7); VSet [VNum 3; VNum 2]; VFun [(VStr [107%N], VNum 1)]].
@@ -218,4 +301,28 @@ Example c03_seq_nonvacuous :
   ModuleDotDotSymbol (VNum 2147483646) (VNum 2147483647) = Ok (VSet [VNum 2147483646; VNum 2147483647]) /\
   ModuleColonGreaterThanSymbol (VNum 1) (VNum 2) = Ok (VFun [(VNum 1, VNum 2)]) /\
   spec_colongt (VNum 1) (VNum 2) = SOk (VTup [VNum 2]).
+Proof. vm_compute. repeat split. Qed.
+
+Example c03_binders_nonvacuous :
+  let S := VSet [VNum 3; VNum 1; VNum 2] in
+  QuantifiedUniversal [S; S] (pred_of PLt2) = Ok (VBool false) /\
+  QuantifiedExistential [S; VSet [VStr [97%N]]] (pred_of PLt2) = TypeErr /\
+  SetRefinement S (pred_of (PGt (VNum 1))) = Ok (VSet [VNum 3; VNum 2]) /\
+  Choose S (pred_of (PGt (VNum 5))) = TypeErr /\ Choose S (pred_of (PGt (VNum 1))) = Ok (VNum 3) /\
+  ModulePrefixSubsetSymbol (VSet [VNum 1; VNum 2]) = Ok (VSet [VSet []; VSet [VNum 1]; VSet [VNum 2]; VSet [VNum 1; VNum 2]]) /\
+  ApplyFunction (VFun [(VSet [VNum 2; VNum 1], VNum 7)]) (VSet [VNum 1; VNum 2]) = Ok (VNum 7) /\
+  ApplyFunction (VTup [VNum 4]) (VNum 2) = TypeErr /\
+  CrossProduct [VSet [VNum 1; VNum 2]; VSet [VBool true]] = Ok (VSet [VTup [VNum 1; VBool true]; VTup [VNum 2; VBool true]]) /\
+  SetComprehension [S] (body_of (BMod (VNum 2))) = Ok (VSet [VNum 1; VNum 0]).
+Proof. vm_compute. repeat split. Qed.
+
+Example c03_functions_nonvacuous :
+  ModuleDoubleAtSignSymbol (VFun [(VStr [97%N], VNum 1)]) (VFun [(VStr [98%N], VNum 2); (VStr [97%N], VNum 3)])
+    = Ok (VFun [(VStr [98%N], VNum 2); (VStr [97%N], VNum 1)]) /\
+  spec_atat (VFun [(VStr [97%N], VNum 1)]) (VFun [(VStr [97%N], VNum 3); (VStr [98%N], VNum 2)])
+    = SOk (VFun [(VStr [97%N], VNum 1); (VStr [98%N], VNum 2)]) /\
+  MakeFunction [VSet [VNum 2; VNum 1]] (body_of (BPlus (VNum 10))) = Ok (VFun [(VNum 2, VNum 12); (VNum 1, VNum 11)]) /\
+  spec_mkfun [VSet [VNum 1; VNum 2]] (fun a => VNum 0) = SOk (VTup [VNum 0; VNum 0]) /\
+  MakeFunction [VSet [VNum 1]; VSet [VBool true]] (body_of BLast) = Ok (VFun [(VTup [VNum 1; VBool true], VBool true)]) /\
+  MakeFunction [] (body_of BId) = TypeErr.
 Proof. vm_compute. repeat split. Qed.
